@@ -50,13 +50,13 @@ def main():
         "engines": [
             {"name": "E-shape", "path": "harness/common.h", "kind_free_text": "exhaustive nested-loop enumeration of a declared bounded shape space on the real code, forked workers, reference-model oracle",
              "serves_properties": [c["property_id"] for c in checks if c["engine"] == "E-shape"]},
-            {"name": "E-graph", "path": "harness/graph.h", "kind_free_text": "explicit-state BFS over implementation state images with hashing",
+            {"name": "E-graph", "path": "harness/c09.c (secretstream), harness/c04.c (chunk graph), harness/c17.c (protection states)", "kind_free_text": "explicit-state BFS over implementation state images with hashing",
              "serves_properties": [c["property_id"] for c in checks if c["engine"] == "E-graph"]},
-            {"name": "E-env", "path": "harness/env.h", "kind_free_text": "stateless deviation-bounded DFS over environment answers (allocation failures, RNG draws)",
+            {"name": "E-env", "path": "harness/c18.c (random-source answers), harness/c20.c (allocator answers)", "kind_free_text": "stateless deviation-bounded DFS over environment answers (allocation failures, RNG draws)",
              "serves_properties": [c["property_id"] for c in checks if c["engine"] == "E-env"]},
-            {"name": "E-sched", "path": "sched/", "kind_free_text": "serialising thread scheduler + preemption-bounded schedule explorer over hooked shared accesses",
+            {"name": "E-sched", "path": "sched/rt.c + harness/c19.c", "kind_free_text": "serialising thread scheduler + preemption-bounded schedule explorer over hooked shared accesses",
              "serves_properties": [c["property_id"] for c in checks if c["engine"] == "E-sched"]},
-            {"name": "E-trace", "path": "trace/", "kind_free_text": "branch/address trace hashing for exhaustive 2-safety pair enumeration",
+            {"name": "E-trace", "path": "trace/rt.c + harness/c11.c (+ harness/c11_asm.c under valgrind lackey)", "kind_free_text": "branch/address trace hashing for exhaustive 2-safety pair enumeration",
              "serves_properties": [c["property_id"] for c in checks if c["engine"] == "E-trace"]},
         ],
         "checks": checks,
